@@ -19,6 +19,8 @@ from harness.common import Sym
 MET, UA, UB = 'module:os', '--xdverif-unmet-a', 'module:xdverif_no_such_module_b'
 # a missing module below a package that exists, below a module that is compiled into the interpreter, below a plain module
 UC, UD, UE = 'module:sys.xdverif_no_such_part', 'module:os.xdverif_no_such_part', 'module:time.nope.deeper'
+# module names are case sensitive: a met condition whose name holds capitals, an unmet one that differs from a real module by case only
+MCAP, UCAP = 'module:xml.etree.ElementTree', 'module:OS'
 DIRS = [('SKIP', True, None), ('SKIP', False, None),
         ('REQUIRES', True, MET), ('REQUIRES', False, MET),
         ('REQUIRES', True, UA), ('REQUIRES', False, UA),
@@ -30,7 +32,7 @@ BYSTANDERS = [('REPORT_NDIFF', False, None), ('REPORT_UDIFF', True, None), ('REP
 # one directive listing several conditions (met ones before, between and after unmet ones)
 MULTI_DIRS = [('REQUIRES', sign, ', '.join(args)) for sign in (True, False)
               for args in ((MET, UA), (UA, MET), (MET, UA, UB), (UA, MET, UB), (UB, UA), (MET, MET, UB), ('module:sys', UA), ('module:time',), ('module:itertools', 'module:sys'),
-                           (UC,), (MET, UD), (UE,), ('module:sys', UC))]
+                           (UC,), (MET, UD), (UE,), ('module:sys', UC), (MCAP,), (MCAP, UA), (UCAP,), (MET, UCAP), (MCAP, 'module:json'))]
 PRELUDE = gendoc.PRELUDE + '''
 def tr(k):
     def deco(f):
@@ -50,7 +52,7 @@ def dir_text(d):
 
 # ---- python transcription of Spec/Scoping.v ---------------------------------
 # conditions that hold in the harness process: a module with a file, modules compiled into the interpreter (no file)
-MET_SET = {MET, 'module:sys', 'module:time', 'module:itertools'}
+MET_SET = {MET, 'module:sys', 'module:time', 'module:itertools', MCAP, 'module:json'}
 
 
 def met(arg):
